@@ -314,7 +314,7 @@ def gen_pow_cases(ctx, cu):
                     k += 1
                     if ctx.thorough or cu == 'en-us' and k % 3 == 0 or k % 11 == 0:
                         out.append((sign + m + op + e, 'DoublePow'))
-    out += [(t, 'DoublePow') for t in ['5', 'e5', '1e', '1^', '^', '1e2e3', '1^2^3', '1e+', '1e2+', '2^1' + d + '5', '1e1' + d + '0',
+    out += [(t, 'DoublePow') for t in ['1' + d + '5x10^3', '1' + d + '5e3', '1' + d + '2e-3', '2^10', '10^-2', '2' + d + '5^2', '1e16', '5', 'e5', '1e', '1^', '^', '1e2e3', '1^2^3', '1e+', '1e2+', '2^1' + d + '5', '1e1' + d + '0',
                                        '2^0' + d + '5', '1' + d + d + '5e2', '1' + d + '5' + d + '5e2', '１e２', '2²^2', '1e٣', 'Ⅻe2',
                                        '1 e 5', '1e 5', ' 1e5 ', '1é5', '1ﬁe2', '0e5', '-0' + d + '0e5', '0^-2', '0^0', '0^2']]
     return list(dict.fromkeys(out))
@@ -356,7 +356,8 @@ def gen_text_cases(ctx, cu):
     return [(t, 'Double' + {'es-es': 'Spa', 'fr-fr': 'Fre', 'de-de': 'Ger'}[cu]) for t in {'es-es': TEXT_ES, 'fr-fr': TEXT_FR, 'de-de': TEXT_DE}[cu]]
 
 
-FRAC_EN_FIXED = ['three fifths', 'one and a half', 'one half', 'half', 'a half', 'a quarter', 'three quarters', 'one quarter', 'a third',
+# the first three are the inputs of the witness theorems of Props/C03Frac (mixed_roundth_witness, thirty_seconds_witness)
+FRAC_EN_FIXED = ['two and three hundredths', 'three thirty-seconds', 'one thirty-second', 'three fifths', 'one and a half', 'one half', 'half', 'a half', 'a quarter', 'three quarters', 'one quarter', 'a third',
                  'two thirds', 'one third', 'two and three fifths', 'one hundred and three and two thirds', 'twenty one thirds',
                  'one twenty first', 'three twenty-firsts', 'one hundred twenty firsts', 'one hundred thousand and a half',
                  'two and a half million', 'three fifths of a million', 'half a million', 'a quarter of a million', 'half a hundred',
@@ -408,7 +409,7 @@ def gen_frac_cases(ctx, cu):
                 out.append(('%d over %d' % (n, d), tag))
     wholes = [1, 2, 12, 20, 21, 100, 103, 1000, 99999]
     for w in wholes:
-        for n, d in [(1, 2), (1, 4), (3, 4), (2, 3), (3, 5), (7, 8), (5, 16), (11, 12), (1, 100), (21, 100), (5, 3), (3, 21)] + [
+        for n, d in [(1, 2), (1, 4), (3, 4), (2, 3), (3, 5), (7, 8), (5, 16), (11, 12), (1, 100), (21, 100), (5, 3), (3, 21), (3, 3), (10, 10)] + [
                 (r.randint(1, 30), r.randint(2, 99)) for _ in range(6)]:
             dw = en_denominator(d, n != 1)
             out.append((en_card(w) + ' and ' + en_card(n) + ' ' + dw, tag))
@@ -505,7 +506,7 @@ def unit_float(ctx):
             bad.append('U+%04X' % c)
         elif u == ch and False:
             pass
-    ctx.count('numfrac:upper-scan', 0x110000 - 128)
+    ctx.count('numfrac:upper-scan(all code points)', 1)
     if bad:
         ctx.report('correspondence', 'numfrac-upper', 'str.upper() maps %s onto characters _power_number_parse reads; upperAscii is not faithful there' % bad[:5],
                    failing_input={'code_points': bad[:20]})
@@ -579,7 +580,9 @@ def unit_point(ctx):
         cfg = parser.config
         r = ctx.rng('nf-pv', cu)
         digits = [k for k, v in cfg.cardinal_number_map.items() if v < 10]
-        others = [k for k, v in cfg.cardinal_number_map.items() if v >= 10][:30] + list(cfg.round_number_map)[:6] + ['x', '-', '5', cfg.word_separator_token] + \
+        # (values stay below 10^15: __get_int_value's int x Decimal products are modelled as naturals, see corr/c04.py)
+        others = [k for k, v in cfg.cardinal_number_map.items() if 10 <= v <= 1000][:30] + \
+            [k for k, v in cfg.round_number_map.items() if v <= 1000][:4] + ['x', '-', '5', cfg.word_separator_token] + \
             list(cfg.ordinal_number_map)[:5]
         tl = [[], [digits[0]], [others[0]], [others[0], digits[2]], [digits[1]] * 15, [digits[3]] * 16, [digits[2]] * 17, [digits[-1]] * 15, [digits[-1]] * 16]
         for _ in range(400 if ctx.thorough else 120):
@@ -848,6 +851,8 @@ def pipe_cases(ctx):
             for e in [1, 2, 3, 5, 8, 10, 12, -1, -2, -3, -5]:
                 out.append((cu, 'pow-e', '%se%d' % (mt, e), mv * Fraction(10) ** e))
                 out.append((cu, 'pow-e', '%sE%d' % (mt, e), mv * Fraction(10) ** e))
+                if e > 0:
+                    out.append((cu, 'pow-e', '%se+%d' % (mt, e), mv * Fraction(10) ** e))
                 if abs(e) <= 5:
                     out.append((cu, 'pow-caret', '%s^%d' % (mt, e), mv ** e))
                 if cu == 'en-us':
@@ -861,23 +866,26 @@ def pipe_cases(ctx):
                 continue
             out.append((cu, 'point', en_card(n) + ' point ' + ' '.join(ONES[x] for x in digs),
                         n + Fraction(int(''.join(map(str, digs))), 10 ** len(digs))))
-        out.append((cu, 'point-tens', en_card(n) + ' point twenty five', n + Fraction(1, 4)))
+        for tail, num in (('twenty five', 25), ('ten', 10), ('twelve', 12), ('twenty', 20), ('ninety nine', 99), ('nineteen', 19)):
+            out.append((cu, 'point-tens', en_card(n) + ' point ' + tail, n + Fraction(num, 100)))
     for n in [1, 2, 3, 5, 7, 11, 12, 20, 21, 99, 100]:
         for dn in [2, 3, 4, 5, 8, 9, 10, 11, 12, 16, 20, 21, 32, 100, 1000]:
-            w = en_denominator(dn, n != 1)
+            w = en_denominator(dn, n != 1, hyphen=(dn == 32))
             out.append((cu, 'spelled-seconds' if dn == 32 and n != 1 else 'spelled', en_card(n) + ' ' + w, Fraction(n, dn)))
             if n == 1 and dn not in (8, 11):
                 out.append((cu, 'spelled-article', 'a ' + w, Fraction(1, dn)))
             out.append((cu, 'spelled-over', en_card(n) + ' over ' + en_card(dn), Fraction(n, dn)))
             if n < dn:
                 for whole in (1, 2, 12, 100, 103):
-                    fam = 'spelled-mixed-roundth' if dn in (100, 1000) else 'spelled-mixed-seconds' if dn == 32 else 'spelled-mixed'
+                    fam = 'spelled-mixed-roundth' if dn in (100, 1000) else 'spelled-seconds' if dn == 32 else 'spelled-mixed'
                     out.append((cu, fam, en_card(whole) + ' and ' + en_card(n) + ' ' + w, whole + Fraction(n, dn)))
     for whole in (1, 2, 5, 12, 20):
         out.append((cu, 'spelled-mixed', en_card(whole) + ' and a half', whole + Fraction(1, 2)))
         out.append((cu, 'spelled-mixed', en_card(whole) + ' and a quarter', whole + Fraction(1, 4)))
         for mult, k in (('million', 6), ('billion', 9)):
             out.append((cu, 'spelled-multiplier', en_card(whole) + ' and a half ' + mult, (whole + Fraction(1, 2)) * 10 ** k))
+    for mult, k in (('million', 6), ('billion', 9)):
+        out.append((cu, 'spelled-multiplier', 'half a ' + mult, Fraction(1, 2) * 10 ** k))
     for n, dn in [(1, 2), (3, 5), (2, 3), (3, 4)]:
         for mult, k in (('million', 6), ('billion', 9), ('thousand', 3)):
             out.append((cu, 'spelled-multiplier', en_card(n) + ' ' + en_denominator(dn, n != 1) + ' of a ' + mult, Fraction(n, dn) * 10 ** k))
